@@ -6,6 +6,7 @@ calibrate()): the /proc/net/{tcp,tcp6,udp,udp6,unix} renderers below, written
 after net/ipv4/tcp_ipv4.c (tcp4_seq_show), net/ipv6/tcp_ipv6.c, net/ipv4/udp.c,
 net/ipv6/datagram.c and net/unix/af_unix.c (unix_seq_show).
 """
+import enum
 import json
 import os
 import socket
@@ -193,9 +194,9 @@ def _type_name(t):
 def _addr(a, fam):
     """() -> [] ; (ip, port) -> [symbol, port].  Any text form of the same
     address is accepted: the symbol is recovered from the address's bytes."""
+    if a is None or a == "" or a == () or a == []:     # "empty"
+        return []
     try:
-        if len(a) == 0:
-            return []
         ip, port = a[0], a[1]
     except Exception:  # noqa: BLE001
         return ["<%r>" % (a,), -1]
@@ -216,7 +217,9 @@ def _addr(a, fam):
 def _name(x):
     """UNIX name as bytes; an abstract name may be reported with a leading NUL
     or with the kernel's '@' (the statement does not choose)."""
-    if isinstance(x, str):
+    if x is None or x == ():            # no name
+        b = b""
+    elif isinstance(x, str):
         b = os.fsencode(x)
     elif isinstance(x, bytes):
         b = x
@@ -244,7 +247,8 @@ def normalize(rows, who):
             pid = -7
         if isinstance(fd, bool) or not isinstance(fd, int):
             fd = -7
-        row = {"f": {"fam": fam, "type": ty, "laddr": la, "raddr": ra, "status": str(r.status)},
+        st = r.status.value if isinstance(r.status, enum.Enum) else r.status
+        row = {"f": {"fam": fam, "type": ty, "laddr": la, "raddr": ra, "status": str(st)},
                "pid": pid, "fd": fd}
         k = json.dumps(row, sort_keys=True)
         if k in acc:
@@ -310,17 +314,19 @@ def verdict(ev, got):
     y = why(ev["out"], got)
     if not y:
         return [], []
-    ks = [sorted(a["tags"]) for a in ev["alts"] if not why(a["out"], got)]
+    ys = [why(a["out"], got) for a in ev["alts"]]
+    ks = [sorted(a["tags"]) for a, ya in zip(ev["alts"], ys) if not ya]
     if not ks:
-        return [["other"]], y
+        core = [t for t in y if all(t in ya for ya in ys)]      # WhyCore of the specification
+        return [["other"]], core or y
     m = min(len(k) for k in ks)
     return sorted(k for k in ks if len(k) == m), y
 
 
 def signatures(v, y):
     """Stable signatures of a rejected answer (same for both directions)."""
-    if v == [["other"]]:
-        return ["conf:net_connections:" + ";".join("/".join(str(x) for x in t) for t in y)]
+    if v == [["other"]]:       # one signature per failing clause x family x type
+        return sorted({"conf:net_connections:" + "/".join(str(x) for x in t) for t in y})
     return ["conf:net_connections:" + t for t in v[0]]
 
 
